@@ -410,7 +410,7 @@ def run(ctx):
     from .c08 import _take
     r11 = Rule("C16", "C16.R11", "sections whose type the dump rewrites (loop -> group) are generated alike", floor=1,
                necessary="generation code that asks for type == 'group' treats the live loop section and its reloaded dump differently")
-    _take(r11, c10.run(ctx), "C10.R2", lambda c: c.startswith("repeat placement[group, nested group and expanded loop"))
+    _take(r11, ctx.other(c10), "C10.R2", lambda c: c.startswith("repeat placement[group, nested group and expanded loop"))
     gts = repo.cls("pyxform.section:GroupedSection").methods.get("to_json_dict")
     rewrites = gts is not None and any(isinstance(x, ast.Assign) and isinstance(x.targets[0], ast.Subscript) and norm(x.targets[0].slice) in ("'type'", "constants.TYPE", "const.TYPE") for x in walk_own(gts.node))
     if rewrites:
